@@ -231,3 +231,6 @@ def gic_raises(ctx, st, exc):
 
 UNITS.append(Unit("C14", "jsonargparse._signatures:group_instantiate_class", gic_setup, gic_post, gic_raises,
                   trusted=["cfg is a Namespace (C11 contracts); get_value_and_parent(key) returns (value, parent namespace, leaf key) or raises KeyError", "get_class_instantiator() calls the class with the given keyword arguments"]))
+
+from contracts.import_paths import import_object_unit  # noqa: E402
+UNITS.append(import_object_unit("C14"))
